@@ -380,6 +380,39 @@ func rulesC06(c *Ctx) {
 				}
 			}
 		}
+		// extractRequestMeta (what the gate sees of a request's _meta) decides by decoding the params, like the typed
+		// decoder does: it gives up only for empty params or a failed decode — not on a textual shortcut that can
+		// disagree with the decoder about what the params contain
+		if erm := c.P.FuncOf(c.P.LookupFuncObj(pM, "", "extractRequestMeta")); erm != nil {
+			c.touch(erm)
+			eg := erm.Graph()
+			rawP := erm.NonRecvParams()
+			for i, r := range erm.Returns() {
+				if len(r.Results) != 1 || !isNilIdent(r.Results[0]) {
+					continue
+				}
+				gs := eg.GuardsAt(eg.VertexOf(r))
+				okEmpty := len(rawP) == 1 && hasAtom(gs, func(a Atom) bool {
+					x, y, op, ok := binaryCmp(a.E)
+					if !ok || !a.Val || op != token.EQL {
+						return false
+					}
+					ce, isC := ast.Unparen(x).(*ast.CallExpr)
+					z, isZ := erm.ConstInt(y)
+					return isC && erm.BuiltinName(ce) == "len" && erm.ObjOf(ce.Args[0]) == types.Object(rawP[0]) && isZ && z == 0
+				})
+				okErr := hasAtom(gs, func(a Atom) bool {
+					x, trueWhenNil, isNil := NilTest(a.E)
+					if !isNil || a.Val == trueWhenNil {
+						return false
+					}
+					_, isErr := erm.TypeOf(x).(*types.Named)
+					return isErr && erm.TypeOf(x).String() == "error"
+				})
+				nl, what := eg.gateLeaves(eg.VertexOf(r), true)
+				c.Check((okEmpty || okErr) && nl <= 1, "extractRequestMeta:nil-only-for-empty-or-undecodable#"+itoa(i), erm, r, "the request is treated as carrying no _meta only when its params are empty or do not decode (guards: %s; %d tests: %s)", atomsString(gs), nl, what)
+			}
+		}
 		us := c.FnObj(pM, "ServerSession", "updateState")
 		inUpdateState := func(f *Func) bool {
 			call := litParentCall(f)
@@ -396,6 +429,22 @@ func rulesC06(c *Ctx) {
 				ok := inUpdateState(w.f) && wi != nil && hasAtom(guards, func(a Atom) bool { return !a.Val && w.f.ObjOf(a.E) == wi })
 				// wasInit is computed from the same state in the same closure
 				c.Check(ok, key, w.f, w.n, "initialize stores its params only under !wasInit inside updateState (guards: %s): a second initialize cannot overwrite the session", atomsString(guards))
+				// ... and a second initialize is refused whatever it carries: with wasInit true no successful return is
+				// reachable (no retransmission, same-params or not-yet-confirmed exception)
+				if wi != nil {
+					rg := root.Graph()
+					reach := rg.ReachUnder(func(e ast.Expr) tri {
+						if root.ObjOf(ast.Unparen(e)) == wi {
+							return triTrue
+						}
+						return triUnknown
+					}, nil)
+					for i, r := range root.Returns() {
+						if len(r.Results) == 2 && isNilIdent(r.Results[1]) {
+							c.Check(!reach[rg.VertexOf(r)], "initialize:second-initialize-always-refused#"+itoa(i), root, r, "with the session already initialized no successful return of initialize is reachable")
+						}
+					}
+				}
 			case "(*ServerSession).handle":
 				og := root.Graph()
 				ogd := og.GuardsAt(og.VertexOf(litParentCall(w.f)))
